@@ -47,6 +47,8 @@ CONSTANTS Keys,      \* set of positive integers
           Sorted,    \* "none" | "key" | "val"
           Ops,       \* names of the calls that may be made
           PutVals,   \* "any" | "key": "key" restricts the Put calls to value = key (tie-free, single-outcome instances for the replay of the sorting classes)
+          BigArgs,   \* TRUE: every uint32 position / index / count parameter also takes the boundary values of its TYPE, coded as negative numbers
+                     \*       (TLC integers are 32-bit signed): -1 = 0xFFFFFFFF (MUSCLE_NO_LIMIT, also a failed IndexOf fed back in), -2 = 0xFFFFFFFE, -3 = 0x80000000, -4 = 0x7FFFFFFF
           Wrong,     \* deliberately wrong variants of the specification (vacuity guards): subset of {"remove_no_fixup", "no_reorder_exemption", "moves_keep_tight"}
           GHOST,     \* TRUE: maintain the traversal ghosts (seen / must / re / fin / twice) needed by NoSkip, NoTwice
           RECORD     \* TRUE: keep the step record `last` (behaviour generation, trace validation)
@@ -61,7 +63,8 @@ VARIABLES tbl, oth, its, last,
 vars == <<tbl, oth, its, last, ord>>
 
 N0 == Cardinality(Keys)
-Pos == 0..N0              \* position arguments (values >= number of items mean "last")
+Big == IF BigArgs THEN {-1, -2, -3, -4} ELSE {}
+Pos == (0..N0) \cup Big   \* position arguments (values >= number of items mean "last"; an index that large is "not valid": NULL / failure)
 
 ------------------------------------------------------------------------------
 (* sequences of <<k, v>> *)
@@ -135,7 +138,7 @@ ToBack(t, I, n, k)   == MoveK(t, I, n, k, Len(t) - 1, Idx(t, k) = Len(t))
 ToBefore(t, I, n, k, k2) == MoveK(t, I, n, k, Idx(Without(t, k), k2) - 1, Idx(t, k) + 1 = Idx(t, k2))
 ToBehind(t, I, n, k, k2) == MoveK(t, I, n, k, Idx(Without(t, k), k2), Idx(t, k) = Idx(t, k2) + 1)
 ToPosition(t, I, n, k, p) == IF p = 0 THEN ToFront(t, I, n, k)
-                             ELSE IF p >= Len(t) THEN ToBack(t, I, n, k)
+                             ELSE IF p >= Len(t) \/ p < 0 THEN ToBack(t, I, n, k)                 \* documented clamp (p < 0: a huge value)
                              ELSE MoveK(t, I, n, k, p, FALSE)        \* the general path always unlinks
 
 \* Put(k, v): the SET of allowed outcomes.  W = witness order of keys (or <<>>).
@@ -192,7 +195,7 @@ TableOps == {"Put", "PutPrev", "PutIfAbsent", "GetOrPut", "PutOrRemove", "PutAtF
              "GetAndMoveToFront", "GetAndMoveToBack", "Remove", "RemoveGet", "RemoveFirst", "RemoveLast",
              "MoveToFront", "MoveToBack", "MoveToBefore", "MoveToBehind", "MoveToPosition",
              "SortByKey", "SortByValue", "SortSelf", "Reposition", "Swap", "Clear", "Destroy", "AssignFrom", "AssignTo", "PutAll", "MoveToTable",
-             "RemoveAll", "Intersect", "EnsureSize", "ShrinkToFit", "SetAutoSort"}
+             "RemoveAll", "Intersect", "EnsureSize", "ShrinkToFit", "SetAutoSort", "EnsureCanPut"}
 QueryOps == {"Get", "IndexOfKey", "IndexOfValue", "GetKeyAt", "GetValueAt", "GetFirstKey", "GetLastKey", "GetKeyBefore", "GetKeyAfter",
              "ContainsValue", "NumItems", "IsEqualTo"}
 IterOps  == {"ItNew", "ItNewAt", "ItAdv", "ItRet", "ItFlip", "ItDel", "ItCopy"}
@@ -208,8 +211,9 @@ Args(op) ==
                  "Get", "IndexOfKey", "GetKeyBefore", "GetKeyAfter"} -> Keys \X {0} \X {0}
       [] op \in {"MoveToBefore", "MoveToBehind"} -> Keys \X Keys \X {0}
       [] op = "MoveToPosition" -> Keys \X Pos \X {0}
-      [] op = "EnsureSize" -> (0..(N0 + 1)) \X {0, 1} \X {0}
-      [] op = "ShrinkToFit" -> {0, 1} \X {0} \X {0}
+      [] op = "EnsureSize" -> ((0..(N0 + 1)) \cup Big) \X {0, 1} \X {0}
+      [] op = "ShrinkToFit" -> ({0, 1} \cup Big) \X {0} \X {0}
+      [] op = "EnsureCanPut" -> ({0, 1, 2} \cup Big) \X {0} \X {0}
       [] op = "IndexOfValue" -> Vals \X {0, 1} \X {0}
       [] op \in {"GetKeyAt", "GetValueAt"} -> Pos \X {0} \X {0}
       [] op = "ContainsValue" -> Vals \X {0} \X {0}
@@ -262,7 +266,9 @@ DoTable(w, op, a, b, c, W1, W2) ==
                                ELSE {LET r == RemoveK(t, p.its, 1, a) IN [WR(r.t, p.t, r.its, 1) EXCEPT !.mv = p.mv] : p \in PutSet(w.o, I, 2, a, Val(t, a), W2, TRUE)}
       [] op = "RemoveAll" -> {On1(w, RemoveSeq(t, I, 1, KeySeq(w.o), 0))}                                        \* tbl.Remove(oth): number removed
       [] op = "Intersect" -> {On1(w, RemoveSeq(t, I, 1, KeySeq(SelectSeq(t, LAMBDA e : e[1] \notin KeysOf(w.o))), 0))}
-      [] op \in {"EnsureSize", "ShrinkToFit"} -> Same(w, 1)
+      \* pure capacity calls.  A huge request ends with B_NO_ERROR (allocation deferred), B_OUT_OF_MEMORY or B_RESOURCE_LIMIT - the header
+      \* documents the first two - and leaves the contents and the iterators alone: result 2 = "one of these"
+      [] op \in {"EnsureSize", "ShrinkToFit", "EnsureCanPut"} -> Same(w, IF a < 0 THEN 2 ELSE 1)
 
 DoQuery(w, op, a, b, c) ==
     LET t == w.t IN
@@ -386,6 +392,7 @@ aIntersect == TRUE /\ Call("Intersect")
 aEnsureSize == TRUE /\ Call("EnsureSize")
 aShrinkToFit == TRUE /\ Call("ShrinkToFit")
 aSetAutoSort == TRUE /\ Call("SetAutoSort")
+aEnsureCanPut == TRUE /\ Call("EnsureCanPut")
 aGet == TRUE /\ Call("Get")
 aIndexOfKey == TRUE /\ Call("IndexOfKey")
 aIndexOfValue == TRUE /\ Call("IndexOfValue")
@@ -409,7 +416,7 @@ aItCopy == TRUE /\ Call("ItCopy")
 Init == /\ tbl = <<>> /\ oth = <<>> /\ its = [i \in ItIds |-> NoIt] /\ last = [op |-> "Init"] /\ ord = Ord0
 Next == \/ aPut \/ aPutPrev \/ aPutIfAbsent \/ aGetOrPut \/ aPutOrRemove \/ aPutAtFront \/ aPutAtBack \/ aPutBefore \/ aPutBehind \/ aPutAtPosition \/ aGetAndMoveToFront \/ aGetAndMoveToBack
         \/ aRemove \/ aRemoveGet \/ aRemoveFirst \/ aRemoveLast \/ aMoveToFront \/ aMoveToBack \/ aMoveToBefore \/ aMoveToBehind \/ aMoveToPosition \/ aSortByKey \/ aSortByValue \/ aSortSelf \/ aReposition
-        \/ aSwap \/ aClear \/ aDestroy \/ aAssignFrom \/ aAssignTo \/ aPutAll \/ aMoveToTable \/ aRemoveAll \/ aIntersect \/ aEnsureSize \/ aShrinkToFit \/ aSetAutoSort
+        \/ aSwap \/ aClear \/ aDestroy \/ aAssignFrom \/ aAssignTo \/ aPutAll \/ aMoveToTable \/ aRemoveAll \/ aIntersect \/ aEnsureSize \/ aShrinkToFit \/ aSetAutoSort \/ aEnsureCanPut
         \/ aGet \/ aIndexOfKey \/ aIndexOfValue \/ aGetKeyAt \/ aGetValueAt \/ aGetFirstKey \/ aGetLastKey \/ aGetKeyBefore \/ aGetKeyAfter \/ aContainsValue \/ aNumItems \/ aIsEqualTo
         \/ aItNew \/ aItNewAt \/ aItAdv \/ aItRet \/ aItFlip \/ aItDel \/ aItCopy
 Spec == Init /\ [][Next]_vars
